@@ -6,6 +6,7 @@ import (
 
 	"github.com/mlange-42/arche/ecs"
 	"github.com/mlange-42/arche/ecs/event"
+	"github.com/mlange-42/arche/generic"
 	"github.com/mlange-42/arche/listener"
 )
 
@@ -372,6 +373,9 @@ func caseC09(c *Ctx) {
 		if !s.Failed() {
 			succeedAll(s, g, rows)
 		}
+		if !s.Failed() && c.Case%2 == 0 {
+			genericUnderLock(s)
+		}
 	case "listener":
 		// structural calls from inside a removal callback
 		// the removal event reaches a listener through any of its type bits, not only EntityRemoved
@@ -542,4 +546,106 @@ func caseC09Ledger(c *Ctx) {
 		}
 	}
 	finish(c, s, s.Cov.N["ledger_callbacks"] >= 10 && s.Cov.N["batch_2tables"] >= 1)
+}
+
+type lockLate0 struct{ V uint64 }
+type lockLate1 struct{ ecs.Relation }
+
+// genericUnderLock uses the generic entry points with component types the world has not seen, on a locked world:
+// registering a new type is a structural change, so each call must panic and change nothing - and the very same
+// objects must work once the world is unlocked.
+func genericUnderLock(s *Sess) {
+	w := s.W
+	nIDs := len(ecs.ComponentIDs(w))
+	if nIDs+3 > ecs.MaskTotalBits {
+		return
+	}
+	expect := nIDs + 3
+	for _, id := range ecs.ComponentIDs(w) {
+		if info, _ := ecs.ComponentInfo(w, id); info.Type == generic.T[G0]() {
+			expect = nIDs + 2 // (the filter's first type is known already)
+		}
+	}
+	f1 := generic.NewFilter2[G0, lockLate0]()
+	f2 := generic.NewFilter1[lockLate1]().WithRelation(generic.T[lockLate1]())
+	f0 := generic.NewFilter0().With(generic.T[lockLate0]())
+	q := w.Query(ecs.All())
+	s.open = 1
+	before := s.PublicSnapshot()
+	sh1, sh2 := hookShape(w)
+	calls := []struct {
+		name string
+		f    func()
+	}{
+		{"Filter2.Query", func() { qq := f1.Query(w); qq.Close() }},
+		{"Filter1.Query.relation", func() { qq := f2.Query(w); qq.Close() }},
+		{"Filter0.Query", func() { qq := f0.Query(w); qq.Close() }},
+		{"Filter2.Register", func() { f1.Register(w) }},
+		{"NewMap1", func() { generic.NewMap1[lockLate0](w) }},
+		{"NewMap", func() { generic.NewMap[lockLate1](w) }},
+		{"Exchange.Adds", func() { generic.NewExchange(w).Adds(generic.T[lockLate0]()) }},
+	}
+	for _, cl := range calls {
+		if !mustPanic(cl.f) {
+			s.fail("illegal.nopanic:locked.generic."+cl.name+".newtype", "%s with a component type the world has not seen returned normally on a locked world", cl.name)
+			break
+		}
+		a1, a2 := hookShape(w)
+		if after := s.PublicSnapshot(); after != before || a1 != sh1 || a2 != sh2 || len(ecs.ComponentIDs(w)) != nIDs {
+			s.fail("illegal.changed:locked.generic."+cl.name+".newtype", "the rejected %s changed the world: %s", cl.name, firstDiff(before, after))
+			break
+		}
+		s.Cov.N["lockrow_generic:"+cl.name]++
+	}
+	q.Close()
+	s.open = 0
+	if s.Failed() {
+		return
+	}
+	if w.IsLocked() {
+		s.fail("lock.state", "world locked after the query was closed (rejected generic calls in between)")
+		return
+	}
+	// unlocked: the same filter objects work, select nothing (no entity has the new types), and leave no lock
+	for i, run := range []func() int{
+		func() int { qq := f1.Query(w); n := qq.Count(); qq.Close(); return n },
+		func() int { qq := f2.Query(w); n := qq.Count(); qq.Close(); return n },
+		func() int {
+			qq := f0.Query(w)
+			n := 0
+			for qq.Next() {
+				n++
+			}
+			return n
+		},
+	} {
+		n := -1
+		if mustPanic(func() { n = run() }) || n != 0 {
+			s.fail("lock.after:generic.Filter.Query", "generic filter %d, first used (and rejected) on the locked world, does not work after unlocking (selected %d, -1: panic)", i, n)
+			return
+		}
+		if w.IsLocked() {
+			s.fail("lock.state", "world locked after using generic filter %d, first used on the locked world", i)
+			return
+		}
+	}
+	if got := len(ecs.ComponentIDs(w)); got != expect {
+		s.fail("lock.after:generic.registry", "after unlocking %d new types are registered as %d types", expect-nIDs, got-nIDs)
+		return
+	}
+	// the late types are real now: an entity with them is selected
+	m := generic.NewMap1[lockLate0](w)
+	e := m.New()
+	qq := f0.Query(w)
+	n := 0
+	for qq.Next() {
+		if qq.Entity() == e {
+			n++
+		}
+	}
+	if n != 1 {
+		s.fail("lock.after:generic.Filter.Query", "an entity created with the late type is selected %d times by the filter first used under lock", n)
+	}
+	w.RemoveEntity(e)
+	s.Cov.N["generic_under_lock"]++
 }
